@@ -43,5 +43,10 @@ for name in sorted(os.listdir(os.path.join(V, "seeded"))):
         "wall_s": round(time.time() - t, 1),
     }
     json.dump(meta, open(os.path.join(d, "meta.json"), "w"), indent=1)
+    if "PATCH-DOES-NOT-APPLY" in out:
+        meta["patch_does_not_apply_to_current_repo"] = True
+        json.dump(meta, open(os.path.join(d, "meta.json"), "w"), indent=1)
+        print(name, "PATCH-DOES-NOT-APPLY (the repository moved on: rebase the patch)", flush=True)
+        continue
     print(name, "caught" if p.returncode == 0 else "MISSED", "demo clean/patched = %s/%s" % (
         dc.returncode, dp.group(1) if dp else "?"), sigs[:2], flush=True)
